@@ -1,8 +1,311 @@
-//! (to be filled)
-pub fn main(_args: &[String]) -> i32 {
-    eprintln!("not implemented");
-    2
-}
+//! xp-total / xp-worker (C06): every expression is run through `xml_xpath::query` in a CHILD PROCESS
+//! (this binary re-executed with the sub-command `xp-worker`), so that a panic, an abort (stack overflow,
+//! signal) or a hang of the code under test is observed as data:
+//!     outcome = ok | err | panic | abort | timeout      (+ wall-clock milliseconds of the call)
+//!
+//!   xp-total --in CASES --trace OUT --stats OUT [--garbage N --seed S] [--sample K] [--workers W]
+//!       CASES: `call` lines printed by MC_XPathCost (hostile families, named constructs) and, optionally,
+//!       DOC/REPLAY lines of MC_XPath (every spelling is run too).  `--garbage N`: N seeded random strings
+//!       over the XPath token alphabet and single-character mutations of the valid expressions seen.
+//!   xp-worker      reads {"doc":..,"expr":..} lines on stdin, answers one JSON line each.
+//!
+//! Trace_XPathCost.tla judges the events (the specification has no Panic/Abort/Timeout action).
+
+use super::parse_merged;
+use crate::util::*;
+use rand::rngs::StdRng;
+use rand::{Rng, SeedableRng};
+use serde_json::{json, Value as J};
+use std::io::{BufRead, BufReader, Write};
+use std::process::{Child, Command, Stdio};
+use std::sync::mpsc::{channel, Receiver, RecvTimeoutError};
+use std::time::{Duration, Instant};
+use xml_xpath::eval::model::{Context, Value};
+
+const LIMIT: Duration = Duration::from_secs(5);
+
+// ------------------------------------------------------------------------------------------------
+// worker (child process)
+
 pub fn worker(_args: &[String]) -> i32 {
-    2
+    let stdin = std::io::stdin();
+    let stdout = std::io::stdout();
+    let mut cached: Option<(String, Result<xml_dom::XmlDocument, String>)> = None;
+    for line in stdin.lock().lines() {
+        let line = match line {
+            Ok(l) => l,
+            Err(_) => break,
+        };
+        let req: J = match serde_json::from_str(&line) {
+            Ok(v) => v,
+            Err(_) => continue,
+        };
+        let doc_text = req["doc"].as_str().unwrap_or("").to_string();
+        let expr = req["expr"].as_str().unwrap_or("").to_string();
+        if cached.as_ref().map(|c| c.0 != doc_text).unwrap_or(true) {
+            cached = Some((doc_text.clone(), parse_merged(&doc_text)));
+        }
+        let resp = match &cached.as_ref().unwrap().1 {
+            Err(e) => json!({"o": "doc", "detail": e}),
+            Ok(dom) => {
+                let t0 = Instant::now();
+                let r = guarded(|| {
+                    let mut ctx = Context::default();
+                    match xml_xpath::query(dom.clone(), &expr, &mut ctx) {
+                        Ok(Value::Node(ns)) => ("ok", ns.is_empty(), format!("nodes[{}]", ns.len())),
+                        Ok(Value::Boolean(b)) => ("ok", false, format!("{}", b)),
+                        Ok(Value::Number(n)) => ("ok", false, format!("{}", n)),
+                        Ok(Value::Text(s)) => ("ok", false, format!("'{}'", s.chars().take(40).collect::<String>())),
+                        Err(e) => ("err", false, e.to_string().chars().take(80).collect()),
+                    }
+                });
+                let ms = t0.elapsed().as_millis() as u64;
+                match r {
+                    Ok((o, empty, detail)) => json!({"o": o, "empty": empty, "detail": detail, "ms": ms}),
+                    Err(p) => json!({"o": "panic", "empty": false, "detail": p.chars().take(120).collect::<String>(), "ms": ms}),
+                }
+            }
+        };
+        let mut out = stdout.lock();
+        if writeln!(out, "{}", resp).is_err() || out.flush().is_err() {
+            break;
+        }
+    }
+    0
+}
+
+// ------------------------------------------------------------------------------------------------
+// parent
+
+struct Proc {
+    child: Child,
+    rx: Receiver<String>,
+}
+
+fn spawn() -> Proc {
+    let exe = std::env::current_exe().expect("current_exe");
+    let mut child = Command::new(exe)
+        .arg("xp-worker")
+        .stdin(Stdio::piped())
+        .stdout(Stdio::piped())
+        .stderr(Stdio::null())
+        .spawn()
+        .expect("spawn worker");
+    let out = child.stdout.take().unwrap();
+    let (tx, rx) = channel();
+    std::thread::spawn(move || {
+        for line in BufReader::new(out).lines() {
+            match line {
+                Ok(l) => {
+                    if tx.send(l).is_err() {
+                        break;
+                    }
+                }
+                Err(_) => break,
+            }
+        }
+    });
+    Proc { child, rx }
+}
+
+/// one call in the child process; the child is replaced when it died or hung
+fn call(p: &mut Proc, doc: &str, expr: &str) -> J {
+    let req = json!({"doc": doc, "expr": expr}).to_string();
+    let t0 = Instant::now();
+    let sent = {
+        let stdin = p.child.stdin.as_mut().unwrap();
+        writeln!(stdin, "{}", req).and_then(|_| stdin.flush())
+    };
+    let res = if sent.is_err() { Err(RecvTimeoutError::Disconnected) } else { p.rx.recv_timeout(LIMIT) };
+    match res {
+        Ok(line) => serde_json::from_str(&line).unwrap_or(json!({"o": "abort", "detail": "garbled answer"})),
+        Err(RecvTimeoutError::Timeout) => {
+            let _ = p.child.kill();
+            let _ = p.child.wait();
+            *p = spawn();
+            json!({"o": "timeout", "empty": false, "detail": "no answer within 5 s", "ms": t0.elapsed().as_millis() as u64})
+        }
+        Err(RecvTimeoutError::Disconnected) => {
+            let status = p.child.wait().ok();
+            let detail = match status {
+                Some(s) => {
+                    #[cfg(unix)]
+                    {
+                        use std::os::unix::process::ExitStatusExt;
+                        match s.signal() {
+                            Some(sig) => format!("signal {}", sig),
+                            None => format!("exit {:?}", s.code()),
+                        }
+                    }
+                    #[cfg(not(unix))]
+                    {
+                        format!("{:?}", s)
+                    }
+                }
+                None => "child vanished".to_string(),
+            };
+            *p = spawn();
+            json!({"o": "abort", "empty": false, "detail": detail, "ms": t0.elapsed().as_millis() as u64})
+        }
+    }
+}
+
+const TOKENS: [&str; 66] = [
+    "/", "//", "*", "a", "b", "@", "x", "[", "]", "(", ")", "1", "0", ".", "..", "::", "child", "ancestor", "following",
+    "text", "node", "comment", "processing-instruction", "'", "\"", "s", "|", "+", "-", "=", "!=", "<", ">", "<=", "and",
+    "or", "div", "mod", ",", " ", "$", "v", ":", "p", "count", "string", "substring", "last", "position", "id", "lang",
+    "not", "sum", "namespace", "attribute", "self", "parent", "9", "e", "#", "日", "\t", "\n", "preceding-sibling", "]]", "((",
+];
+
+fn garbage(rng: &mut StdRng, valid: &[String]) -> String {
+    if !valid.is_empty() && rng.gen_bool(0.4) {
+        // one edit of a valid expression
+        let base: Vec<char> = valid[rng.gen_range(0..valid.len())].chars().collect();
+        let mut v = base.clone();
+        if v.is_empty() {
+            return String::new();
+        }
+        let i = rng.gen_range(0..v.len());
+        match rng.gen_range(0..4) {
+            0 => {
+                v.remove(i);
+            }
+            1 => {
+                let t: Vec<char> = TOKENS[rng.gen_range(0..TOKENS.len())].chars().collect();
+                for (k, c) in t.into_iter().enumerate() {
+                    v.insert(i + k, c);
+                }
+            }
+            2 => v.truncate(i),
+            _ => v.swap(i, (i + 1) % base.len()),
+        }
+        v.into_iter().collect()
+    } else {
+        let n = rng.gen_range(1..13);
+        (0..n).map(|_| TOKENS[rng.gen_range(0..TOKENS.len())]).collect::<Vec<_>>().join("")
+    }
+}
+
+pub fn main(args: &[String]) -> i32 {
+    let inp = arg_value(args, "--in").unwrap_or("-");
+    let trace = arg_value(args, "--trace").unwrap_or("-");
+    let stats_path = arg_value(args, "--stats");
+    let n_garbage: usize = arg_value(args, "--garbage").and_then(|s| s.parse().ok()).unwrap_or(0);
+    let seed: u64 = arg_value(args, "--seed").and_then(|s| s.parse().ok()).unwrap_or(1);
+    let sample: usize = arg_value(args, "--sample").and_then(|s| s.parse().ok()).unwrap_or(100);
+    let workers: usize = arg_value(args, "--workers").and_then(|s| s.parse().ok()).unwrap_or(4);
+
+    // the work list: (event skeleton, doc text, expr text, always_trace)
+    let mut work: Vec<(J, String, String, bool)> = vec![];
+    let mut docs: Vec<String> = vec![];
+    let mut mc_docs: std::collections::HashMap<i64, String> = Default::default();
+    let mut valid: Vec<String> = vec![];
+    for_each_case(inp, |case| match case["k"].as_str().unwrap_or("") {
+        "call" => {
+            let doc = cps_to_string(&case["doc"]);
+            let expr = cps_to_string(&case["expr"]);
+            if !docs.contains(&doc) {
+                docs.push(doc.clone());
+            }
+            let ev = json!({"k": "call", "fam": case["fam"], "n": case["n"], "allow": case["allow"], "maxms": case["maxms"],
+                            "expr": case["expr"]});
+            work.push((ev, doc, expr, true));
+        }
+        "doc" => {
+            mc_docs.insert(case["doc"].as_i64().unwrap_or(0), cps_to_string(&case["text"]));
+        }
+        "xp" => {
+            if let Some(doc) = mc_docs.get(&case["doc"].as_i64().unwrap_or(0)) {
+                for sp in case["sp"].as_array().unwrap_or(&vec![]) {
+                    let expr = cps_to_string(sp);
+                    if valid.len() < 5000 {
+                        valid.push(expr.clone());
+                    }
+                    let ev = json!({"k": "call", "fam": "spelling", "n": 0, "allow": "any", "maxms": 2000, "expr": sp});
+                    work.push((ev, doc.clone(), expr, false));
+                }
+            }
+        }
+        _ => {}
+    });
+    if docs.is_empty() {
+        docs.push("<a x=\"1\"><b/><b>1</b></a>".to_string());
+    }
+    let mut rng = StdRng::seed_from_u64(seed ^ 0xc06);
+    for i in 0..n_garbage {
+        let expr = garbage(&mut rng, &valid);
+        let doc = docs[i % docs.len()].clone();
+        let ev = json!({"k": "call", "fam": "garbage", "n": 0, "allow": "any", "maxms": 2000, "expr": string_to_cps(&expr)});
+        work.push((ev, doc, expr, false));
+    }
+
+    // run: W threads, each with its own child process; results merged in input order
+    let total = work.len();
+    let work = std::sync::Arc::new(work);
+    let mut handles = vec![];
+    for wi in 0..workers {
+        let work = work.clone();
+        handles.push(std::thread::spawn(move || {
+            let mut p = spawn();
+            let mut res: Vec<(usize, J)> = vec![];
+            let mut i = wi;
+            while i < work.len() {
+                let (_, doc, expr, _) = &work[i];
+                res.push((i, call(&mut p, doc, expr)));
+                i += workers;
+            }
+            let _ = p.child.kill();
+            let _ = p.child.wait();
+            res
+        }));
+    }
+    let mut results: Vec<Option<J>> = vec![None; total];
+    for h in handles {
+        for (i, r) in h.join().unwrap_or_default() {
+            results[i] = Some(r);
+        }
+    }
+
+    let mut w = open_out(trace);
+    let mut counts: std::collections::BTreeMap<String, u64> = Default::default();
+    let mut fams: std::collections::BTreeMap<String, u64> = Default::default();
+    let mut traced = 0u64;
+    let mut fast_ok = 0u64;
+    let mut samples: Vec<J> = vec![];
+    let mut max_ms = 0u64;
+    for (i, (ev, doc, expr, always)) in work.iter().enumerate() {
+        let r = results[i].clone().unwrap_or(json!({"o": "abort", "detail": "no result"}));
+        let o = r["o"].as_str().unwrap_or("abort").to_string();
+        *counts.entry(o.clone()).or_insert(0) += 1;
+        *fams.entry(ev["fam"].as_str().unwrap_or("").to_string()).or_insert(0) += 1;
+        let ms = r["ms"].as_u64().unwrap_or(0);
+        max_ms = max_ms.max(ms);
+        let fine = (o == "ok" || o == "err") && ms <= 1000;
+        if fine {
+            fast_ok += 1;
+        }
+        if *always || !fine || (sample > 0 && i % sample == 0) {
+            let mut e = ev.clone();
+            e["doc"] = string_to_cps(doc);
+            e["outcome"] = json!(o);
+            e["empty"] = json!(r["empty"].as_bool().unwrap_or(false));
+            e["ms"] = json!(ms);
+            e["detail"] = r["detail"].clone();
+            writeln!(w, "{}", e).unwrap();
+            traced += 1;
+            if samples.len() < 5 && (i % 37 == 0) {
+                samples.push(json!({"expr": expr, "outcome": o, "detail": r["detail"], "ms": ms}));
+            }
+        }
+    }
+    w.flush().unwrap();
+    let stats = json!({"calls": total, "outcomes": counts, "families": fams, "traced": traced, "fast_ok": fast_ok,
+                       "max_ms": max_ms, "samples": samples});
+    if let Some(p) = stats_path {
+        let mut f = open_out(p);
+        writeln!(f, "{}", stats).unwrap();
+    } else {
+        eprintln!("{}", stats);
+    }
+    0
 }
